@@ -43,40 +43,61 @@ func (propC08) Gen(seed uint64, tier string) *Case {
 	if r.Chance(0.05) {
 		cfg.EqualKeys = 0.3 // known-finding trigger (equal-text key order follows map order)
 	}
-	g := &Gen{r: r, cfg: cfg, noQual: map[int]bool{}}
+	g := &Gen{r: r, cfg: cfg}
 	g.universe()
-	// reserve up to two paths for Anon-only use
-	var anonOnly []int
-	if len(g.paths) > 2 {
-		for i := r.Intn(3); i > 0; i-- {
-			p := r.Intn(len(g.paths))
-			if !g.noQual[p] && len(anonOnly) < len(g.paths)-1 {
-				g.noQual[p] = true
-				anonOnly = append(anonOnly, p)
-			}
-		}
-	}
 	rec := &Recipe{Paths: g.paths}
 	rec.File = genFileSpec(g, r, true)
-	for _, p := range g.paths {
-		if rec.File.Path == p.Path {
-			// the local path is never Anon'd
-		}
-	}
-	for _, op := range genConfigOps(g, r, true) {
-		if op.K == "anon" {
-			continue // Anon only on reserved paths, below
-		}
-		rec.Ops = append(rec.Ops, op)
-	}
-	if len(anonOnly) > 0 && r.Chance(0.4) {
-		rec.Ops = append(rec.Ops, Op{K: "anon", P: []int{anonOnly[0]}})
-	}
-	for i := r.Range(1, 3); i > 0; i-- {
-		rec.Ops = append(rec.Ops, Op{K: "add", Node: g.decl()})
+	np := len(g.paths)
+	// referenced[p]: some qualified identifier of p exists in a declaration added so far or in
+	// any fragment. Anon is only ever issued on paths not referenced yet ("excluding Anon on
+	// an already referenced path"); they may well be referenced later.
+	referenced := map[int]bool{}
+	mark := func(n *Node) {
+		n.walk(func(x *Node) {
+			if x.K == "qual" {
+				referenced[((x.I%np)+np)%np] = true
+			}
+		})
 	}
 	for i := r.Intn(4); i > 0; i-- {
 		rec.Frags = append(rec.Frags, g.fragment())
+	}
+	for _, fr := range rec.Frags {
+		mark(fr)
+	}
+	anonOp := func() (Op, bool) {
+		var free []int
+		for p := 0; p < np; p++ {
+			if !referenced[p] && g.paths[p].Path != rec.File.Path {
+				free = append(free, p)
+			}
+		}
+		if len(free) == 0 {
+			return Op{}, false
+		}
+		return Op{K: "anon", P: []int{free[r.Intn(len(free))]}}, true
+	}
+	for _, op := range genConfigOps(g, r, true) {
+		if op.K == "anon" {
+			if a, ok := anonOp(); ok {
+				rec.Ops = append(rec.Ops, a)
+			}
+			continue
+		}
+		rec.Ops = append(rec.Ops, op)
+	}
+	if r.Chance(0.3) {
+		if a, ok := anonOp(); ok {
+			rec.Ops = append(rec.Ops, a)
+		}
+	}
+	addDecl := func() {
+		d := g.decl()
+		mark(d)
+		rec.Ops = append(rec.Ops, Op{K: "add", Node: d})
+	}
+	for i := r.Range(1, 3); i > 0; i-- {
+		addDecl()
 	}
 	n := r.Range(3, 14)
 	if tier == "thorough" && r.Chance(0.3) {
@@ -88,38 +109,43 @@ func (propC08) Gen(seed uint64, tier string) *Case {
 		}
 		return nil
 	}
-	np := len(g.paths)
 	for i := 0; i < n; i++ {
 		x := r.Intn(100)
 		switch {
-		case x < 38:
+		case x < 36:
 			rec.Ops = append(rec.Ops, Op{K: "render", W: wplan()})
-		case x < 56 && len(rec.Frags) > 0:
+		case x < 54 && len(rec.Frags) > 0:
 			rec.Ops = append(rec.Ops, Op{K: "render_frag", I: r.Intn(len(rec.Frags)), W: wplan()})
-		case x < 60 && len(rec.Frags) > 0:
+		case x < 58 && len(rec.Frags) > 0:
 			rec.Ops = append(rec.Ops, Op{K: "render_frag_nofile", I: r.Intn(len(rec.Frags)), W: wplan()})
-		case x < 68:
+		case x < 65:
 			rec.Ops = append(rec.Ops, Op{K: "render_group", I: r.Intn(5), W: wplan()})
-		case x < 70:
+		case x < 67:
 			rec.Ops = append(rec.Ops, Op{K: "render_group_nofile", I: r.Intn(5)})
-		case x < 74:
+		case x < 71:
 			rec.Ops = append(rec.Ops, Op{K: "render_body", W: wplan()})
+		case x < 79:
+			addDecl()
 		case x < 82:
-			rec.Ops = append(rec.Ops, Op{K: "add", Node: g.decl()})
+			st := g.stmt(1)
+			mark(st)
+			rec.Ops = append(rec.Ops, Op{K: "add_to_group", I: r.Intn(5), Node: st})
 		case x < 85 && len(rec.Frags) > 0:
 			rec.Ops = append(rec.Ops, Op{K: "addfrag", I: r.Intn(len(rec.Frags))})
 		case x < 89:
 			rec.Ops = append(rec.Ops, Op{K: "hint_name", P: []int{r.Intn(np)}})
-		case x < 95:
+		case x < 94:
 			a := g.alias()
 			if r.Chance(0.35) {
 				a = "."
 			}
 			rec.Ops = append(rec.Ops, Op{K: "hint_alias", P: []int{r.Intn(np)}, S: a})
-		case x < 97:
+		case x < 96:
 			rec.Ops = append(rec.Ops, Op{K: "prefix", S: r.Pick([]string{"pkg", "q", ""})})
-		case x < 99 && len(anonOnly) > 0:
-			rec.Ops = append(rec.Ops, Op{K: "anon", P: []int{anonOnly[r.Intn(len(anonOnly))]}})
+		case x < 99:
+			if a, ok := anonOp(); ok {
+				rec.Ops = append(rec.Ops, a)
+			}
 		default:
 			rec.Ops = append(rec.Ops, Op{K: "render", W: wplan()})
 		}
@@ -136,7 +162,7 @@ func (propC08) Gen(seed uint64, tier string) *Case {
 
 func stateChanging(k string) bool {
 	switch k {
-	case "add", "addfrag", "hint_name", "hint_names", "hint_alias", "anon", "prefix", "noformat", "pkgcomment", "header", "canonical":
+	case "add", "add_to_group", "addfrag", "cgo", "hint_name", "hint_names", "hint_names_shared", "hint_names_alt", "hint_alias", "anon", "prefix", "noformat", "pkgcomment", "header", "canonical":
 		return true
 	}
 	return false
@@ -154,11 +180,24 @@ func checkHistoryC08(rec *Recipe, hist []Outcome, ri *RunInfo) *Violation {
 	fresh := map[string]bool{}      // object not rendered since the last state-changing op
 	disturb := 0                    // counts events after which a File-dependent render may legitimately change
 	sp := symPaths(rec)
+	expectIdents := map[string]int{} // identifiers every later File render must contain -> op that added them
 	names := map[string]string{}   // path -> name it first appeared under
 	nameOp := map[string]int{}
 	for i := range hist {
 		o := &hist[i]
 		if !o.Render {
+			// R4 bookkeeping: what an addition obliges later File renders to show
+			if o.OK && o.Panic == "" && i < len(rec.Ops) {
+				op := rec.Ops[i]
+				switch {
+				case o.Kind == "add" && op.Node != nil && (op.Node.K == "var" || op.Node.K == "func" || op.Node.K == "struct"):
+					expectIdents[op.Node.S] = i
+				case o.Kind == "add_to_group" && o.Obj == "filegroup" && op.Node != nil:
+					if op.Node.K == "define" {
+						expectIdents[op.Node.S] = i
+					}
+				}
+			}
 			if stateChanging(o.Kind) {
 				disturb++
 				fresh = map[string]bool{}
@@ -227,6 +266,25 @@ func checkHistoryC08(rec *Recipe, hist []Outcome, ri *RunInfo) *Violation {
 				names[path] = name
 				nameOp[path] = i
 			}
+		}
+		if obj == "file" && len(expectIdents) > 0 {
+			have := map[string]bool{}
+			for _, t := range scanTokens(o.Out) {
+				have[t] = true
+			}
+			var missing []string
+			for id := range expectIdents {
+				if !have[id] {
+					missing = append(missing, id)
+				}
+			}
+			if len(missing) > 0 {
+				sort.Strings(missing)
+				return &Violation{Rule: "C08-R4-addition-not-rendered", Op: i,
+					Detail:   fmt.Sprintf("op %d (render file): %s was added to the File at op %d, after an earlier render, but this render does not contain it", i, missing[0], expectIdents[missing[0]]),
+					Observed: trunc(string(o.Out), 1500)}
+			}
+			ri.count("R4_additions_seen", len(expectIdents))
 		}
 		if obj == "file" {
 			specs, err := parseImports(o.Out)
@@ -315,15 +373,23 @@ func (propC08) Valid(c *Case) bool {
 		return true
 	}
 	ref := map[int]bool{}
-	r.walk(func(nd *Node) {
-		if nd.K == "qual" {
-			ref[((nd.I%n)+n)%n] = true
-		}
-	})
+	mark := func(nd *Node) {
+		nd.walk(func(x *Node) {
+			if x.K == "qual" {
+				ref[((x.I%n)+n)%n] = true
+			}
+		})
+	}
+	for _, fr := range r.Frags {
+		mark(fr)
+	}
 	for _, op := range r.Ops {
-		if op.K == "anon" {
+		switch op.K {
+		case "add", "add_to_group":
+			mark(op.Node)
+		case "anon":
 			for _, p := range op.P {
-				if ref[p%n] {
+				if ref[((p%n)+n)%n] {
 					return false
 				}
 			}
